@@ -421,11 +421,82 @@ Apply(s, e) ==
 (***************************************************************************)
 IdOf(t) == <<t.minUnit, t.scale>>
 
+(***************************************************************************)
+(* HISTORY ghosts (audit of round 7).  The clauses C09_Authority, C09_Cap,  *)
+(* C09_Burned, C09_Fee, C10_ToERC20, C10_FromERC20, C10_SumConst read the   *)
+(* owner, the maximum, the mintable flag, the tally, the tax rate and the   *)
+(* bound contract from the module's OWN records as projected in the state.  *)
+(* The ghosts below hold the same facts ACCORDING TO WHAT HAPPENED: the     *)
+(* accepted messages and their arguments (and, for contracts, the ERC20     *)
+(* ledger - an observation independent of the token records):              *)
+(*   hOwner[symbol]   issuer of the accepted Issue, receiver of the last    *)
+(*                    accepted TransferOwner                               *)
+(*   hDecl[symbol]    [mu, scale, capped, max, mintable] declared by the    *)
+(*                    accepted Issue, changed by accepted Edits only        *)
+(*   hMuSym[min unit] the symbol the accepted Issue named with it           *)
+(*   hBurned[coin]    the tally the history started with + every accepted   *)
+(*                    Burn's amount                                        *)
+(*   hTax             the tax rate of the last accepted SetParams           *)
+(*   hContract[coin]  the contract that APPEARED IN THE LEDGER in the       *)
+(*                    accepted Deploy naming the coin (first binding stays) *)
+(* Objects that exist when a history starts, and tokens that appear through *)
+(* no Issue (DeployERC20 creates one for an IBC denom), enter as found.     *)
+(***************************************************************************)
+DeclOfRec(r) == [mu |-> r.minUnit, scale |-> r.scale, capped |-> r.max > 0, max |-> r.max,
+                 mintable |-> r.mintable]
+IssueOK(e) == e.name = "Issue" /\ e.ok
+DeclOfIssue(e) ==
+  LET mt == e.mintable = "true" IN
+  [mu |-> e.mu, scale |-> e.scale, capped |-> (e.max > 0 \/ ~mt),
+   max |-> IF e.max > 0 THEN e.max ELSE e.initial, mintable |-> mt]
+BoundAt(s) == {m \in DOMAIN s.byMinUnit \cup {STAKE} : ContractOf(s, m) # NoContract}
+NoSuchContract == "?"
+
+HistInit(s) ==
+  [hOwner |-> [y \in DOMAIN s.tok |-> s.tok[y].owner],
+   hDecl |-> [y \in DOMAIN s.tok |-> DeclOfRec(s.tok[y])],
+   hMuSym |-> s.byMinUnit,
+   hBurned |-> s.burned,
+   hTax |-> [num |-> s.params.taxNum, den |-> s.params.taxDen],
+   hContract |-> [m \in BoundAt(s) |-> ContractOf(s, m)]]
+
+HistStep(g, s, e, t) ==
+  LET syms == DOMAIN g.hOwner \cup DOMAIN t.tok \cup (IF IssueOK(e) THEN {e.sym} ELSE {})
+      mus == DOMAIN g.hMuSym \cup DOMAIN t.byMinUnit \cup (IF IssueOK(e) THEN {e.mu} ELSE {})
+      fresh == DOMAIN t.erc \ DOMAIN s.erc
+  IN
+  [hOwner |-> [y \in syms |->
+       IF e.name = "TransferOwner" /\ e.ok /\ e.sym = y THEN e.to
+       ELSE IF y \in DOMAIN g.hOwner THEN g.hOwner[y]
+       ELSE IF IssueOK(e) /\ e.sym = y THEN e.who
+       ELSE t.tok[y].owner],
+   hDecl |-> [y \in syms |->
+       IF y \in DOMAIN g.hDecl THEN
+         (IF e.name = "Edit" /\ e.ok /\ e.sym = y
+          THEN [g.hDecl[y] EXCEPT !.max = IF e.max > 0 THEN e.max ELSE @,
+                                  !.capped = IF e.max > 0 THEN TRUE ELSE @,
+                                  !.mintable = IF e.mintable = "" THEN @ ELSE e.mintable = "true"]
+          ELSE g.hDecl[y])
+       ELSE IF IssueOK(e) /\ e.sym = y THEN DeclOfIssue(e)
+       ELSE DeclOfRec(t.tok[y])],
+   hMuSym |-> [m \in mus |->
+       IF m \in DOMAIN g.hMuSym THEN g.hMuSym[m]
+       ELSE IF IssueOK(e) /\ e.mu = m THEN e.sym
+       ELSE t.byMinUnit[m]],
+   hBurned |-> IF e.name = "Burn" /\ e.ok THEN Put(g.hBurned, e.mu, Amt(g.hBurned, e.mu) + e.amt)
+               ELSE g.hBurned,
+   hTax |-> IF e.name = "SetParams" /\ e.ok THEN [num |-> e.p.taxNum, den |-> e.p.taxDen] ELSE g.hTax,
+   hContract |-> IF e.name = "Deploy" /\ e.ok /\ e.mu \notin DOMAIN g.hContract
+                 THEN Put(g.hContract, e.mu,
+                          IF Cardinality(fresh) = 1 THEN CHOOSE c \in fresh : TRUE ELSE NoSuchContract)
+                 ELSE g.hContract]
+
 GhostInit(s) == [everSym |-> [y \in DOMAIN s.tok |-> IdOf(s.tok[y])],
                  everMu |-> s.byMinUnit,
                  pastOwners |-> [y \in DOMAIN s.tok |-> {s.tok[y].owner}],
                  inn |-> [m \in DOMAIN s.byMinUnit |-> s.supply[m] + Amt(s.burned, m)],
-                 out |-> [m \in DOMAIN s.byMinUnit |-> 0]]
+                 out |-> [m \in DOMAIN s.byMinUnit |-> 0],
+                 h |-> HistInit(s)]
 
 GenuineHook(e) == e.name = "Hook" /\ e.sym = ""
 InOf(s, e, m) ==
@@ -442,7 +513,8 @@ OutOf(s, e, m) ==
   ELSE 0
 
 GhostStep(g, s, e, t) ==
-  [inn |-> [m \in DOMAIN t.byMinUnit |->
+  [h |-> HistStep(g.h, s, e, t),
+   inn |-> [m \in DOMAIN t.byMinUnit |->
               (IF m \in DOMAIN g.inn THEN g.inn[m]
                ELSE IF e.name = "Issue" /\ e.ok /\ e.mu = m THEN 0
                ELSE s.supply[m])          \* a token created for coins that already circulate
@@ -641,6 +713,96 @@ C10_SwapSettle(s, e, t) ==
        /\ OthersSame(s, t, e.mu, e.who)
        /\ OthersSame(s, t, out, rcpt)
        /\ \A d \in DOMAIN s.supply : (d \notin {e.mu, out}) => t.supply[d] = s.supply[d]
+
+-----------------------------------------------------------------------------
+(***************************************************************************)
+(* HISTORY TWINS (official clauses): the sentences of C09 / C10 judged by   *)
+(* what happened (ghost h before the step: hp; after: hq) instead of by the *)
+(* module's own records.  A record that is silently overwritten, an index   *)
+(* entry never written, a tally or a binding that is rewritten cannot make  *)
+(* them vacuous or wrong on both sides.                                     *)
+(***************************************************************************)
+(* C09: a symbol and a min unit each identify at most one token for ever: an accepted Issue names
+   a symbol and a min unit that no token of this history ever had *)
+C09_IssueFresh(hp, e) ==
+  IssueOK(e) => /\ e.sym \notin DOMAIN hp.hOwner /\ e.sym # STAKE
+                /\ e.mu \notin DOMAIN hp.hMuSym /\ e.mu # STAKE
+
+(* C09: only the current owner - the issuer, or the receiver of the last accepted hand-over -
+   edits, mints, hands over; a token declared (or last edited to be) non-mintable never mints *)
+C09_AuthorityH(hp, e) ==
+  /\ (e.name \in {"Edit", "TransferOwner"} /\ e.ok) =>
+       e.sym \in DOMAIN hp.hOwner /\ hp.hOwner[e.sym] = e.who
+  /\ (e.name = "Mint" /\ e.ok) =>
+       /\ e.mu \in DOMAIN hp.hMuSym
+       /\ LET y == hp.hMuSym[e.mu] IN
+          y \in DOMAIN hp.hOwner /\ hp.hOwner[y] = e.who /\ hp.hDecl[y].mintable
+
+(* C09: through issue, mint, edit, burn the circulating amount stays within the DECLARED maximum
+   (the accepted Issue's, the last accepted Edit's); an accepted Edit that names a maximum names
+   one that is not below what circulates *)
+HCirc(x, d) == x.supply[d.mu]
+C09_CapH(s, e, t, hp, hq) ==
+  /\ (e.name \in C09Msgs) =>
+       \A y \in DOMAIN hq.hDecl :
+         LET d == hq.hDecl[y] IN
+         (d.capped /\ d.mu \in DOMAIN t.supply) =>
+           IF y \in DOMAIN hp.hDecl /\ hp.hDecl[y].capped /\ d.mu \in DOMAIN s.supply
+           THEN CapKeptW(HCirc(s, d), hp.hDecl[y].max, HCirc(t, d), d.max, Pow10(d.scale))
+           ELSE CapW(HCirc(t, d), d.max, Pow10(d.scale))
+  /\ (e.name = "Edit" /\ e.ok /\ e.max > 0) =>
+       /\ e.sym \in DOMAIN hp.hDecl
+       /\ LET d == hp.hDecl[e.sym] IN
+          d.mu \in DOMAIN t.supply /\ CapW(HCirc(t, d), e.max, Pow10(d.scale))
+
+(* C09: burned amounts are tallied exactly: the tally IS what the history started with plus the
+   amounts of the accepted burns *)
+C09_BurnedH(t, hq) ==
+  \A m \in DOMAIN hq.hBurned \cup DOMAIN t.burned : Amt(t.burned, m) = Amt(hq.hBurned, m)
+
+(* C09: the fee is split at the tax rate of the last accepted parameter change *)
+C09_FeeH(s, e, t, hp) ==
+  (e.name \in {"Issue", "Mint"} /\ e.ok) =>
+    LET F == e.fee
+        tax == t.bal[FEEP][STAKE] - s.bal[FEEP][STAKE]
+    IN /\ tax * hp.hTax.den - F * hp.hTax.num < hp.hTax.den
+       /\ F * hp.hTax.num - tax * hp.hTax.den < hp.hTax.den
+
+(* C10: "the bound contract" is the one that appeared in the ledger when the coin's deployment was
+   accepted - whatever the token record says now *)
+C10_ToERC20H(s, e, t, hp) ==
+  (e.name = "ToERC20" /\ e.ok) =>
+    /\ e.mu \in DOMAIN hp.hContract
+    /\ LET c == hp.hContract[e.mu] IN
+       /\ c \in DOMAIN s.erc /\ c \in DOMAIN t.erc
+       /\ t.erc[c][e.to] - s.erc[c][e.to] = e.amt
+       /\ ErcOthersSame(s, t, c, e.to)
+C10_FromERC20H(s, e, t, hp) ==
+  (e.name = "FromERC20" /\ e.ok) =>
+    /\ e.mu \in DOMAIN hp.hContract
+    /\ LET c == hp.hContract[e.mu] IN
+       /\ c \in DOMAIN s.erc /\ c \in DOMAIN t.erc
+       /\ s.erc[c][e.who] - t.erc[c][e.who] = e.amt
+       /\ ErcOthersSame(s, t, c, e.who)
+C10_SumConstH(s, e, t, hp) ==
+  (e.name \in ConvMsgs) =>
+    \A m \in DOMAIN hp.hContract :
+      LET c == hp.hContract[m] IN
+      (c \in DOMAIN s.erc /\ c \in DOMAIN t.erc /\ m \in DOMAIN s.supply) =>
+        t.supply[m] + ErcTotal(t, c) = s.supply[m] + ErcTotal(s, c)
+
+(* the module's records say what the history says (diagnostic; the twins judge the consequences) *)
+X09_RecordsAsHistory(t, hq) ==
+  /\ DOMAIN t.tok = DOMAIN hq.hOwner /\ DOMAIN t.byMinUnit = DOMAIN hq.hMuSym
+  /\ \A y \in DOMAIN t.tok \cap DOMAIN hq.hOwner :
+       /\ t.tok[y].owner = hq.hOwner[y]
+       /\ t.tok[y].minUnit = hq.hDecl[y].mu /\ t.tok[y].scale = hq.hDecl[y].scale
+       /\ t.tok[y].mintable = hq.hDecl[y].mintable
+       /\ (hq.hDecl[y].capped => t.tok[y].max = hq.hDecl[y].max)
+  /\ \A m \in DOMAIN t.byMinUnit \cap DOMAIN hq.hMuSym : t.byMinUnit[m] = hq.hMuSym[m]
+  /\ BoundAt(t) = DOMAIN hq.hContract
+  /\ \A m \in BoundAt(t) \cap DOMAIN hq.hContract : ContractOf(t, m) = hq.hContract[m]
+  /\ t.params.taxNum * hq.hTax.den = hq.hTax.num * t.params.taxDen
 
 -----------------------------------------------------------------------------
 (***************************************************************************)
@@ -1058,6 +1220,18 @@ Act_C09_Cap == [][C09_Cap(st, ev', st')]_vars
 Act_C09_Cap_ModF5 ==
   [][C09_Cap(st, ev', st') \/ Apply(st, ev').why = "f5_edit_floor"]_vars
 Act_C09_Burned == [][C09_Burned(st, ev', st')]_vars
+(* history twins *)
+Act_C09_IssueFresh == [][C09_IssueFresh(gh.h, ev')]_vars
+Act_C09_AuthorityH == [][C09_AuthorityH(gh.h, ev')]_vars
+Act_C09_CapH == [][C09_CapH(st, ev', st', gh.h, gh'.h)]_vars
+Act_C09_Cap_ModF5H ==
+  [][C09_CapH(st, ev', st', gh.h, gh'.h) \/ Apply(st, ev').why = "f5_edit_floor"]_vars
+Act_C09_BurnedH == [][C09_BurnedH(st', gh'.h)]_vars
+Act_C09_FeeH == [][C09_FeeH(st, ev', st', gh.h)]_vars
+Act_C10_ToERC20H == [][C10_ToERC20H(st, ev', st', gh.h)]_vars
+Act_C10_FromERC20H == [][C10_FromERC20H(st, ev', st', gh.h)]_vars
+Act_C10_SumConstH == [][C10_SumConstH(st, ev', st', gh.h)]_vars
+Act_X09_RecordsAsHistory == [][X09_RecordsAsHistory(st', gh'.h)]_vars
 Act_X09_SupplyLedger == [][X09_SupplyLedger(st', gh')]_vars
 Act_X09_FeeQuote == [][X09_FeeQuote(st, ev')]_vars
 Act_X10_DeployBinds == [][X10_DeployBinds(st, ev', st')]_vars
